@@ -30,6 +30,7 @@ def families(tier):
         ("a_p_b", D["a_p_b"], 3, 5),
         ("handshake", topos.HANDSHAKE, 3, 4),
         ("ring2_dfix", topos.RINGS_OK["ring2_dfix"], 3, 4),
+        ("tap_scale_and_linear", topos.TAPS["tap_scale_and_linear"], 2, 3),
     ]
     fams = []
     for name, topo, uq, ut in table:
